@@ -141,6 +141,22 @@ Theorem C04_no_coinbase_no_64_byte_tx : forall (D : Type) (deq : D -> D -> bool)
 Proof. exact ibm_false_no_coinbase. Qed.
 Print Assumptions C04_no_coinbase_no_64_byte_tx.
 
+(* The 64-byte rule, spelled out.  With one hash Hb on byte strings (SHA256d): inner nodes are
+   Hb (enc a ++ enc b) with 32-byte encodings, txids are Hb (serialization without witness).  If Hb is
+   injective, two non-empty transaction lists none of which contains a 64-byte transaction, with the
+   same unflagged merkle root, are the same list of transactions. *)
+Theorem C04_merkle_binding_no_64_byte_tx : forall (D byte : Type) (Hb : list byte -> D) (enc : D -> list byte)
+  (deq : D -> D -> bool) (zero : D),
+  (forall x y, Hb x = Hb y -> x = y) -> (forall x, length (enc x) = 32%nat) -> (forall x y, enc x = enc y -> x = y) ->
+  (forall a b, deq a b = true <-> a = b) ->
+  forall (txs1 txs2 : list (list byte)) r, txs1 <> [] -> txs2 <> [] ->
+  (forall t, In t txs1 -> length t <> 64%nat) -> (forall t, In t txs2 -> length t <> 64%nat) ->
+  compute_merkle_root D deq (fun a b => Hb (enc a ++ enc b)) zero (map Hb txs1) = Some (r, false) ->
+  compute_merkle_root D deq (fun a b => Hb (enc a ++ enc b)) zero (map Hb txs2) = Some (r, false) ->
+  txs1 = txs2.
+Proof. exact merkle_binding_no_64_byte_tx. Qed.
+Print Assumptions C04_merkle_binding_no_64_byte_tx.
+
 (* Not proved here (full statement): "receiving a mutated variant never causes the genuine block to
    be marked invalid": for every history, ProcessNewBlock on a block whose verdict is BLOCK_MUTATED
    leaves every CBlockIndex::nStatus failure flag unchanged (InvalidBlockFound and
